@@ -1,9 +1,9 @@
 SPECIFICATION Spec
 CONSTANTS
-  MaxN = 4
-  Extra = 2
-  MaxEntries = 6
-  MaxMsgs = 2
+  MaxN = 5
+  Extra = 1
+  MaxEntries = 5
+  MaxMsgs = 0
   MaxSigs = 2
   MaxOps = 100000000
   Canon = TRUE
@@ -11,6 +11,6 @@ CONSTANTS
   KF_RepeatedSignerCounts = FALSE
   KF_VoteAcceptsFailedVerify = FALSE
   KF_UnverifiedExtraVoteSigns = FALSE
-INVARIANTS TypeOK ProposalOK ReceiveOK VoteOK CollectOK StoreClean
+INVARIANTS TypeOK ProposalOK ReceiveOK
 VIEW View
 CHECK_DEADLOCK FALSE
